@@ -45,6 +45,55 @@ func zeroOrigin(t types.Type) []string {
 	return []string{"const(nil)"}
 }
 
+// defaultSetter: a helper fn(p *T, v T) whose whole effect is `if *p == <zero of T> { *p = v }` — a call
+// fn(&c.X, K) is then the zero-guarded default X ← K.
+func defaultSetter(w *World, fn *ssa.Function) bool {
+	if fn == nil || fn.Blocks == nil || len(fn.Params) != 2 || fn.Signature.Recv() != nil {
+		return false
+	}
+	pt, ok := fn.Params[0].Type().Underlying().(*types.Pointer)
+	if !ok {
+		return false
+	}
+	zeros := zeroOrigin(pt.Elem())
+	stores, other := 0, false
+	okStore := false
+	allInstrs(fn, func(in ssa.Instruction) {
+		switch x := in.(type) {
+		case *ssa.Store:
+			stores++
+			if x.Addr != ssa.Value(fn.Params[0]) || x.Val != ssa.Value(fn.Params[1]) {
+				return
+			}
+			gs := guardsOf(in.Block())
+			if len(gs) != 1 {
+				return
+			}
+			v, pol := stripNot(gs[0].Cond, gs[0].Branch)
+			b, isB := v.(*ssa.BinOp)
+			if !isB || !pol || b.Op != token.EQL {
+				return
+			}
+			isLoad := func(y ssa.Value) bool {
+				u, ok := y.(*ssa.UnOp)
+				return ok && u.Op == token.MUL && u.X == ssa.Value(fn.Params[0])
+			}
+			for _, z := range zeros {
+				if (isLoad(b.X) && w.Origin(b.Y) == z) || (isLoad(b.Y) && w.Origin(b.X) == z) {
+					okStore = true
+				}
+			}
+		case ssa.CallInstruction:
+			if !strings.Contains(calleeName(x.Common()), "logger") {
+				other = true
+			}
+		case *ssa.Send, *ssa.MapUpdate, *ssa.Panic:
+			other = true
+		}
+	})
+	return stores == 1 && okStore && !other
+}
+
 func c17r1(c *Ctx, id string) {
 	w := c.W
 	ad := w.Method("config", "Dcp", "ApplyDefaults")
@@ -64,6 +113,37 @@ func c17r1(c *Ctx, id string) {
 		}
 		c.see(fn)
 		allInstrs(fn, func(in ssa.Instruction) {
+			// a default written through a set-when-unset helper
+			if call, isCall := in.(*ssa.Call); isCall {
+				if h := call.Common().StaticCallee(); h != nil && w.inModule(h) && len(call.Common().Args) == 2 && defaultSetter(w, h) {
+					target := w.Origin(call.Common().Args[0])
+					if strings.HasPrefix(target, "&recv.") {
+						path := strings.TrimPrefix(target, "&")
+						n++
+						val := w.Origin(call.Common().Args[1])
+						extra := 0
+						for _, g := range guardsOf(in.Block()) {
+							if !strings.Contains(w.Origin(g.Cond), "logger.Log") {
+								extra++
+							}
+						}
+						nonZero := true
+						for _, z := range zeroOrigin(call.Common().Args[1].Type()) {
+							if val == z {
+								nonZero = false
+							}
+						}
+						construct := "default:" + strings.TrimPrefix(path, "recv.")
+						if nonZero && extra == 0 && !strings.Contains(val, "global(") {
+							defaulted[path] = in.Block()
+							c.OK(id, construct, in.Pos(), "set only when unset (through %s), to %s", h.Name(), val)
+						} else {
+							c.Fail(id, construct, in.Pos(), "default of %s ← %s through %s (non-zero: %v, extra conditions: %d)", path, val, h.Name(), nonZero, extra)
+						}
+					}
+				}
+				return
+			}
 			st, ok := in.(*ssa.Store)
 			if !ok {
 				return
